@@ -206,5 +206,63 @@ func TestC03(t *testing.T) {
 			runOne(true, seq, d)
 		}
 	}
+	// (4) deep explicit-state search: histories are merged by the reference model's abstract state
+	// (open directory + remaining entries, open read file, open write file, digest of the writable subtree);
+	// a successor is produced by replaying the shortest history on a fresh server plus one request.
+	deep := 5
+	if r.Thorough() {
+		deep = 7
+	}
+	r.Extra("deep_depth", sprintf("%d", deep))
+	for _, allow := range []bool{false, true} {
+		seen := map[string]bool{}
+		type node struct{ hist []Req }
+		var frontier []node
+		for i, a := range alpha {
+			if i%r.NShards == r.Shard {
+				frontier = append(frontier, node{[]Req{a}})
+			}
+		}
+		for d := 1; d <= deep && len(frontier) > 0; d++ {
+			var next []node
+			for _, nd := range frontier {
+				if r.TimeUp() {
+					break
+				}
+				mut := false
+				for _, q := range nd.hist {
+					if isMutating(q) {
+						mut = true
+					}
+				}
+				if allow && mut {
+					cw.resetW()
+				}
+				m := newModel(cw.w.Root, allow)
+				res := runSession(t, SrvOpts{Root: cw.w.Root, AllowWrite: allow}, m, nd.hist, Delivery{})
+				r.Transition(int64(len(res.Steps)))
+				r.ExtraAdd("deep_executions", 1)
+				if res.Why != "" {
+					r.Violation("C03:deep:"+res.WhySig, res.Why, map[string]any{"allow_write": allow, "requests": nd.hist, "steps": res.Steps})
+					continue
+				}
+				if len(res.Steps) < len(nd.hist) || (len(res.Closed) > 0 && res.Closed[len(res.Closed)-1]) {
+					continue // connection ended: no successors
+				}
+				key := sprintf("%v|%s|%s", allow, m.AbstractKey(), sprint(snapshotTree(filepath.Join(cw.w.Root, "w"), "")))
+				if seen[key] {
+					continue
+				}
+				seen[key] = true
+				r.ExtraAdd("deep_states", 1)
+				if d < deep {
+					for _, a := range alpha {
+						next = append(next, node{append(append([]Req{}, nd.hist...), a)})
+					}
+				}
+			}
+			frontier = next
+		}
+	}
 	r.Assume("vnet models TCP as two reliable byte queues; real-TCP conformance is checked by replaying sessions against the real binary (C03 bin replay)")
 }
